@@ -191,6 +191,27 @@ def c_dgf(p):
 # realisation on the implementation
 # ============================================================================
 _PROBES = None
+_ECHO = None
+ECHO_MODE = False      # realise() uses key-echo probes instead of the integer probes (C04 direct oracle)
+
+
+def echo_probe():
+    """a distribution whose sample is 20 bits of its own PRNG key: two sites with equal samples drew with one key"""
+    global _ECHO
+    if _ECHO is None:
+        import jax
+        import jax.numpy as jnp
+        from genjax._src.generative_functions.distributions.distribution import exact_density
+
+        def sample(key, p):
+            kd = jax.random.key_data(key)
+            bits = ((kd[..., 0] ^ (kd[..., 1] >> 5)) & 0xFFFFF)
+            return bits.astype(jnp.float32) + 0.0 * p
+
+        def logpdf(v, p):
+            return 0.0 * v + 0.0 * p
+        _ECHO = exact_density(sample, logpdf, "EchoProbe")
+    return _ECHO
 
 
 def probes():
@@ -223,7 +244,7 @@ def realise(p):
     import jax.numpy as jnp
     k = p[0]
     if k == "dist":
-        return probes()[p[1]]
+        return echo_probe() if ECHO_MODE else probes()[p[1]]
     if k == "static":
         sites = [(addr_name(a), realise(g), es) for (a, g, es) in p[1]]
         ret = p[2]
@@ -278,7 +299,7 @@ def to_jax(v, t, stage="ar"):
     if t[0] == "A":
         n, et = t[1], t[2]
         if et == "S": return jnp.array([float(x) for x in v], dtype=jnp.float32).reshape((n,))
-        if et == "B": return jnp.array([bool(x) for x in v]).reshape((n,))
+        if et == "B": return jnp.array([bool(x) for x in v], dtype=bool).reshape((n,))
         if et == "I": return jnp.array([int(x) for x in v], dtype=jnp.int32).reshape((n,))
         if et == "N": return None
         if et[0] == "T":
